@@ -29,14 +29,8 @@ package cpuallocator
 //@ pure part(a *allocatorHelper) cpuset.CPUSet = a.result.Union(a.from)
 //@ pure wfh(a *allocatorHelper) bool = a != nil && a.result.Intersection(a.from).IsEmpty() && a.cnt >= 0
 
-// The two cluster/cache-group stages are not verified yet (several hundred lines each, nested sorters):
-// they are ASSUMED to keep the same bookkeeping invariant as the verified stages.
-//@ assume-contract (*allocatorHelper).takeIdleClusters
-//@   modifies a.result, a.from, a.cnt
-//@   ensures stagePost(a)
-//@ assume-contract (*allocatorHelper).takeCacheGroups
-//@   modifies a.result, a.from, a.cnt
-//@   ensures stagePost(a)
+// The cluster and cache-group stages (takeIdleClusters, takeCacheGroups) are verified against the same bookkeeping
+// invariant as the other stages: their contracts are in verif_contracts_groups.go.
 
 // allocate(): result/from stay a partition of the candidate set, cnt + |result| is constant, and with enough
 // online candidates known to sysfs the request is met (cnt == 0) and the returned set is a.result.
@@ -104,10 +98,12 @@ package cpuallocator
 
 // ---- hardware well-formedness assumed of the topology cache and sysfs (T4) ----------------------------------
 // Thread-sibling sets are the classes of an equivalence (equal or disjoint); package sets are pairwise
-// disjoint; CPU and package id lists have no duplicates.
+// disjoint; CPU and package id lists have no duplicates; clusters and cache groups are listed once each and have
+// pairwise disjoint CPU sets (clustersOK, groupsOK: verif_contracts_groups.go).
 //@ pure topoOK(t topologyCache) bool =
 //@    (forall i idset.ID, j idset.ID :: i in t.core && j in t.core ==> t.core[i].Equals(t.core[j]) || t.core[i].Intersection(t.core[j]).IsEmpty()) &&
-//@    (forall i idset.ID, j idset.ID :: i != j ==> t.pkg[i].Intersection(t.pkg[j]).IsEmpty())
+//@    (forall i idset.ID, j idset.ID :: i != j ==> t.pkg[i].Intersection(t.pkg[j]).IsEmpty()) &&
+//@    clustersOK(t) && groupsOK(t)
 //@ pure topoValid(a *allocatorHelper) bool = topoOK(a.topology)
 //@ pure sysCPUs(s sysfs.System) cpuset.CPUSet
 //@ iface github.com/containers/nri-plugins/pkg/sysfs.System.CPUIDs
